@@ -423,6 +423,15 @@ func (c *FnCtx) next(x *ssa.Next) {
 func (c *FnCtx) unop(x *ssa.UnOp) {
 	switch x.Op {
 	case token.MUL:
+		if a, ok := x.X.(*ssa.Alloc); ok {
+			if st := frozenCellStore(a); st != nil && storeBefore(st, x) {
+				// a captured local that is assigned once (a spilled parameter) and only ever read, here and in
+				// every closure that captures it: a read yields the assigned value whatever calls did in between
+				c.def(x, c.v(st.Val))
+				c.assume(c.tyInv(c.vals[x], x.Type()))
+				return
+			}
+		}
 		t := c.loadPtr(x.X, c.st, true, x.Pos())
 		c.def(x, t)
 		c.assume(c.tyInv(c.vals[x], x.Type()))
@@ -744,4 +753,70 @@ func (c *FnCtx) typeAssert(x *ssa.TypeAssert) {
 	c.assert(o, ok)
 	c.def(x, val)
 	c.assume(c.tyInv(c.vals[x], at))
+}
+
+// frozenCellStore returns the single store into a heap cell that is otherwise only read (in this
+// function and, transitively, in the closures capturing it); nil if the cell may be written elsewhere.
+func frozenCellStore(a *ssa.Alloc) *ssa.Store {
+	if !a.Heap {
+		return nil
+	}
+	switch a.Type().(*types.Pointer).Elem().Underlying().(type) {
+	case *types.Struct, *types.Array:
+		return nil
+	}
+	var st *ssa.Store
+	var readOnly func(refs []ssa.Instruction, v ssa.Value, top bool) bool
+	readOnly = func(refs []ssa.Instruction, v ssa.Value, top bool) bool {
+		for _, r := range refs {
+			switch r := r.(type) {
+			case *ssa.UnOp:
+				if r.Op != token.MUL || r.X != v {
+					return false
+				}
+			case *ssa.DebugRef:
+			case *ssa.Store:
+				if !top || r.Addr != v || r.Val == v || st != nil {
+					return false
+				}
+				st = r
+			case *ssa.MakeClosure:
+				fn := r.Fn.(*ssa.Function)
+				for i, b := range r.Bindings {
+					if b == v {
+						fv := fn.FreeVars[i]
+						if fv.Referrers() == nil || !readOnly(*fv.Referrers(), fv, false) {
+							return false
+						}
+					}
+				}
+			default:
+				return false
+			}
+		}
+		return true
+	}
+	if a.Referrers() == nil || !readOnly(*a.Referrers(), a, true) || st == nil {
+		return nil
+	}
+	if st.Block() != a.Parent().Blocks[0] {
+		return nil
+	}
+	return st
+}
+
+// storeBefore: the store (in the entry block) is executed before the load on every path.
+func storeBefore(st *ssa.Store, ld ssa.Instruction) bool {
+	if ld.Block() != st.Block() {
+		return true // the entry block dominates every other block
+	}
+	for _, i := range st.Block().Instrs {
+		if i == st {
+			return true
+		}
+		if i == ld {
+			return false
+		}
+	}
+	return false
 }
